@@ -146,7 +146,7 @@ func (fr *Frame) libModel(fn *ssa.Function, full string, args []Val, st *State, 
 			r := c.allocRef(st, g, "bigbytes")
 			en := c.elemName(SInt)
 			a := app(SInt, "absI", bv(0))
-			c.heapSet(st, en, tStore(c.heapGet(st, en), r, app(ArrSort(SInt, SInt), "big.bytes", a)))
+			c.heapSet(st, en, c.sto(c.heapGet(st, en), r, app(ArrSort(SInt, SInt), "big.bytes", a)))
 			ln := app(SInt, "big.byteslen", a)
 			c.assumeG(g, mk(SBool, fmt.Sprintf("(and (>= %s 0) (= (= %s 0) (= %s 0)) (= (<= %s 32) (< %s %s)) (= (<= %s 8) (< %s %s)))", ln.S, ln.S, a.S, ln.S, a.S, pow2(256).String(), ln.S, a.S, pow2(64).String())))
 			res := mk(SSlice, fmt.Sprintf("(mk-slice %s 0 %s)", r.S, ln.S))
